@@ -212,6 +212,14 @@ func ruleC17_5(c *Ctx) {
 		}
 		for _, call := range allCalls(f) {
 			if cn := calleeName(call); strings.HasPrefix(cn, "strings.") || strings.HasPrefix(cn, "path.") || strings.HasPrefix(cn, "path/filepath.") {
+				// stripping the leading stars of a pattern with strings.TrimLeft(pattern, "*") is the star loop of
+				// scanChunk written as a library call
+				if cn == "strings.TrimLeft" && name == "in_toto.scanChunk" && len(call.Common().Args) == 2 {
+					if cut, isK := constString(call.Common().Args[1]); isK && cut == "*" && resolve(call.Common().Args[0], call) == ssa.Value(f.Params[0]) {
+						c.ok(R, name, "calls "+cn, call.Pos(), "TrimLeft(pattern, \"*\"): the leading-star loop as a library call")
+						continue
+					}
+				}
 				c.bad(R, name, "calls "+cn, call.Pos(), "the matcher delegates to a path/strings helper (separator handling or partial matching may be introduced)")
 			}
 		}
